@@ -4,6 +4,18 @@ Workload: generated /sys trees (real temp directories behind the vkernel prefix 
 /proc/cpuinfo + /proc/stat (MemFS at /vproc) under the real psutil functions.
 Oracle: the statement's arithmetic on the generator's numbers (exact rationals, compared with a relative
 tolerance of 1e-12) - never a re-parse of the rendered files.
+
+Mechanism keys that fire on the pinned tree (each reproduced un-shimmed with unshare -m + mount --bind):
+  thermal_trip_point_rescaled            thermal-zone thresholds divided by 1000 once per trip point iterated
+  fans_device_nested_chip_dropped_when_another_chip_is_flat
+                                         hwmonN/device/fanM_* is only globbed when no chip has hwmonN/fanM_*
+  zero_threshold_treated_as_missing      tempN_max/crit == 0 is overwritten by the other threshold (Celsius only;
+                                         the Fahrenheit call of the same layout keeps it: 32.0)
+  battery_exception:FileNotFoundError:no_power_supply_class_dir
+                                         no /sys/class/power_supply at all -> exception instead of None
+  cpu_freq_current_off_by_1khz:cpuinfo_mhz_float_truncation
+                                         int(float("1034.091") * 1000) == 1034090 -> 1034.09 MHz for 1034091 kHz
+Everything else (temp_current_wrong, temp_threshold_wrong, battery_*_wrong, cpu_freq_mean_wrong, ...) is silent.
 """
 import errno
 import json
@@ -48,6 +60,10 @@ ASSUMPTIONS = [
     "coretemp chips that exist only under /sys/devices/platform (not in /sys/class/hwmon), and thermal zones next "
     "to hwmon temperatures, may be reported or not (statement is silent); duplicates must not appear twice",
     "min/max of cpu_freq in the cpuinfo-only variant are not asserted",
+    "a threshold file containing 0 is a present threshold (0 degrees C), not a missing one; chips may use different "
+    "nestings on one machine (legacy hwmon_device_register drivers next to *_with_groups drivers); a kernel "
+    "without the power_supply class has no /sys/class/power_supply directory (layout 'psdir absent')",
+    "arbitrary kHz values are generated (not only exactly representable ones): the 1e-12 tolerance decides",
 ]
 REQUIRED_COUNTERS = [
     "temp_sensors_compared", "fan_sensors_compared", "thermal_zones_compared", "battery_results_compared",
@@ -1443,9 +1459,9 @@ def shard_env(shard):
 
 def plan(tier, seed):
     if tier == "quick":
-        ngen, n, nns = 15, 6000, 24
+        ngen, n, nns = 15, 12000, 24
     else:
-        ngen, n, nns = 47, 400_000, 200
+        ngen, n, nns = 47, 300_000, 200
     shards = []
     for i, (s, c) in enumerate(harness.split_range(n, ngen)):
         shards.append(dict(kind="gen", seed=seed, start=s, count=c, variant=VARIANTS[i % 3], hashseed=i))
